@@ -574,6 +574,16 @@ def warm_digest(spec):
                     ds.get_ask(ts(m), "EQ:" + a)
                 except Exception:
                     pass
+        # ... and queries whose wall clock in another zone reads 14:30 / 21:00 while the instant is an hour (Berlin) or nine
+        # hours (Tokyo) earlier: a memo keyed on the wall clock would hand those answers to the backtest
+        for a in syms:
+            for d in range(c["start"] // 1440 - 1, c["end"] // 1440 + 2):
+                for m, zone in ((870 - 60, "Europe/Berlin"), (1260 - 60, "Europe/Berlin"), (870 - 540, "Asia/Tokyo"), (1260 - 540, "Asia/Tokyo")):
+                    try:
+                        ds.get_bid(ts(d * 1440 + m).tz_convert(zone), "EQ:" + a)
+                        ds.get_ask(ts(d * 1440 + m).tz_convert(zone), "EQ:" + a)
+                    except Exception:
+                        pass
         outs = []
         for _ in range(2):        # the first session warms the very instants the second will ask for
             kw = {}
